@@ -31,7 +31,8 @@ Arity(nm) == IF nm = "polynomial" THEN -1 ELSE Len(Sig[nm])        \* polynomial
 
 -----------------------------------------------------------------------------
 (* (b) binding *)
-CONSTANTS MaxArity
+CONSTANTS MaxArity,
+          Deep        \* larger parameter and separation lattices (thorough tier)
 VARIABLES form, route, given,   \* the parameters the user wrote (abstract tokens 1..k), r is token 0
           stage, vec, outcome
 vars == <<form, route, given, stage, vec, outcome>>
@@ -98,10 +99,12 @@ Exact(nm, p, x) ==
 
 \* parameter lattices: pairwise distinct entries, including zero and negative values
 Vec2 == {<<R(2), R(3)>>, <<R(3), R(2)>>, <<R(-1), R(2)>>, <<R(0), R(5)>>, <<<<1, 2>>, R(2)>>, <<R(5), <<-3, 2>>>>}
+        \cup (IF Deep THEN {<<R(7), R(0)>>, <<<<-7, 4>>, <<2, 5>>>>, <<R(11), R(-13)>>, <<<<1, 8>>, <<9, 4>>>>} ELSE {})
 LjVec == {<<R(2), R(1)>>, <<R(1), R(2)>>, <<<<1, 2>>, R(2)>>, <<R(-3), R(2)>>}
 PolyVecs == {SubSeq(<<R(3), R(-1), R(2), R(5), R(-4), R(1), R(7), R(-2), R(6)>>, 1, n) : n \in 1..9}
                 \cup {<<R(0), R(0), R(4)>>, <<<<1, 2>>, <<-3, 4>>>>}
-Xs == {R(1), R(2), <<3, 2>>, R(3)}
+                \cup (IF Deep THEN {<<R(-2), <<5, 4>>, R(0), <<-1, 8>>>>, <<R(0), R(0), R(0), R(0), R(0), R(1)>>, <<<<7, 2>>, R(0), R(0), R(-3), <<1, 5>>>>, <<R(1), R(-1), R(1), R(-1), R(1), R(-1), R(1)>>} ELSE {})
+Xs == {R(1), R(2), <<3, 2>>, R(3)} \cup (IF Deep THEN {<<1, 2>>, <<5, 2>>, R(4), R(5)} ELSE {})
 XsPoly == Xs \cup {R(0), R(-1), <<1, 2>>}
 
 Case(nm, p, x) == [form |-> nm, p |-> p, x |-> x, e |-> Exact(nm, p, x)]
@@ -132,12 +135,15 @@ SpecialCases ==
 \* third-order polynomial fixed by the ten equations of PolyRows!Buck4Rows (value, slope and curvature continuous at the
 \* three knots, stationary at r_min).  The rows are exact; the harness solves them exactly with the documented end pieces.
 Buck4Knots == { << <<6, 5>>, <<21, 10>>, <<13, 5>> >>, <<R(1), R(2), R(3)>>, << <<1, 2>>, <<3, 2>>, <<5, 2>> >> }
+              \cup (IF Deep THEN { << <<3, 4>>, <<5, 4>>, R(2) >>, <<R(1), <<3, 2>>, <<5, 2>> >>, <<R(2), <<5, 2>>, <<7, 2>> >>, << <<4, 5>>, <<11, 10>>, R(3) >> } ELSE {})
 Buck4Piece(kn, x) == IF RLe(x, kn[1]) THEN "bornmayer" ELSE IF RLe(kn[3], x) THEN "dispersion" ELSE IF RLt(x, kn[2]) THEN "quintic" ELSE "cubic"
 Buck4Xs(kn) == {<<n, 4>> : n \in 1..16} \cup {kn[1], kn[2], kn[3]}
 Buck4Cases ==
   {[form |-> "buck4", p |-> <<a, rho, c, kn[1], kn[2], kn[3]>>, rows |-> Buck4Rows(kn),
     xs |-> SetToSeq({[x |-> x, piece |-> Buck4Piece(kn, x)] : x \in Buck4Xs(kn)})] :
-      a \in {R(0), R(1000), <<56363, 5>>}, rho \in {<<3, 10>>, <<1363, 10000>>}, c \in {R(0), R(32), R(134), R(-5)}, kn \in Buck4Knots}
+      a \in {R(0), R(1000), <<56363, 5>>} \cup (IF Deep THEN {R(-50), <<1, 2>>} ELSE {}),
+      rho \in {<<3, 10>>, <<1363, 10000>>} \cup (IF Deep THEN {<<1, 2>>} ELSE {}),
+      c \in {R(0), R(32), R(134), R(-5)} \cup (IF Deep THEN {<<7, 2>>} ELSE {}), kn \in Buck4Knots}
 
 Emit == IF "EMIT" \in DOMAIN IOEnv /\ IOEnv.EMIT = "1"
         THEN /\ ndJsonSerialize(IOEnv.VERIF_OUT \o "/exact.ndjson", SetToSeq(ExactCases \cup ExponentialCases))
